@@ -71,6 +71,7 @@ class Session(object):
 
     def __init__(self, rng, cfg, profile, seed):
         self.rng = rng
+        self.seed = seed
         self.cfg = cfg
         self.p = profile
         self.w = WORLD.World(cfg, seed=seed)
